@@ -10,6 +10,7 @@
     [pstep]. *)
 From Coq Require Import List Ascii String ZArith NArith Bool.
 From Shexer Require Import Lib.PyStr Model.Table Spec.ShexcGrammar.
+From Shexer Require Import Model.FreqInst Model.SerialShexc Model.Run Model.EntryPipe Model.C05Dom.
 Import ListNotations.
 
 Definition nat_str (n : nat) : str := dec_of_N (N.of_nat n).
@@ -79,6 +80,22 @@ Proof.
   destruct (refs_resolve ts); cbn; split; (reflexivity || discriminate).
 Qed.
 
+(** [c05_dom]: a pipeline input table (as for [pipe_shexc]) ->
+    [ran; C05_dom; refs_closedb; labels_nodupb] of the shape list the model
+    computes: classifies a generated run as inside / outside the hypotheses of
+    the theorems of Props/C05.v *)
+Definition zcfg_of (c : rcfg) (ns : Tokens.nsdict) : sercfg :=
+  {| z_ns := ns; z_tau := r_tau c; z_disable_comments := r_disable_comments c; z_mode := r_mode c |}.
+
+Definition c05_dom_row (t : table) : list str :=
+  let c := rcfg_of t in
+  match run_shapes BAlg c (thr_of t) (graph_of t) with
+  | inl (ns, shapes) =>
+    [Str "1"; bstr (C05_dom (zcfg_of c ns) shapes); bstr (refs_closedb shapes); bstr (labels_nodupb shapes)]
+  | inr _ => [Str "0"; Str "0"; Str "0"; Str "0"]
+  end.
+
 Definition entry_c05 (name : str) (t : table) : option table :=
   if str_eqb name (Str "c05_recognise") then Some (map c05_row t)
+  else if str_eqb name (Str "c05_dom") then Some [c05_dom_row t]
   else None.
